@@ -94,17 +94,21 @@ theorem sawPolls_gone {l : List Aw} (h : sawsGone l) (i : Nat) : sawPolls l[i]? 
       simp [hc.2.2] at this
     · rfl
 
-structure SInv (s : State) : Prop where
+structure SInv (f : Bool) (s : State) : Prop where
   /-- the boundary's task list = unresolved reader tasks + task ids held by the loop -/
   p1 : s.pending = nLive s.aws + s.idsHeld
   p2 : s.pc ≠ .fetching → s.idsHeld = 0
   p3 : s.pc = .fetching → (s.coveredCur = true ↔ 0 < s.idsHeld)
   /-- no reader under the boundary: nothing is registered, held or waited for on its behalf -/
-  p4 : s.noReader = true → s.susp = 0 ∧ s.idsHeld = 0 ∧ sawsGone s.aws
+  p4 : f = true → s.noReader = true → s.susp = 0 ∧ s.idsHeld = 0
   p5 : s.pc = .fetching → s.msetDuring = false → s.loading = true
   p6 : s.pc = .fetching → s.msetDuring = false → s.readSince = true → 0 < nLive s.aws
+  /-- no reader under the boundary: every awaiter under it has resumed or has been dropped -/
+  p7 : s.noReader = true → sawsGone s.aws
 
-theorem SInv.init (c : Cfg) : SInv (init c) := by
+variable {f : Bool}
+
+theorem SInv.init (c : Cfg) : SInv f (init c) := by
   constructor <;> simp [Async.init, nLive, liveReaders, sawsGone]
 
 /-! ## events that do not touch the boundary, the awaiters, `pc` or `loading` -/
@@ -123,9 +127,9 @@ theorem SameSusp.trans {a b c : State} (h1 : SameSusp a b) (h2 : SameSusp b c) :
   exact ⟨b1.trans a1, b2.trans a2, b3.trans a3, b4.trans a4, b5.trans a5, b6.trans a6, b7.trans a7,
     b8.trans a8, b9.trans a9, b10.trans a10⟩
 
-theorem SInv.of_same {s t : State} (h : SInv s) (e : SameSusp s t) : SInv t := by
+theorem SInv.of_same {s t : State} (h : SInv f s) (e : SameSusp s t) : SInv f t := by
   obtain ⟨e1, e2, e3, e4, e5, e6, e7, e8, e9, e10⟩ := e
-  obtain ⟨p1, p2, p3, p4, p5, p6⟩ := h
+  obtain ⟨p1, p2, p3, p4, p5, p6, p7⟩ := h
   constructor <;> simp_all
 
 theorem dMarkDirty_susp (s : State) : SameSusp s (dMarkDirty s) := by
@@ -176,25 +180,25 @@ theorem notifySubs_msetDuring (s : State) : (notifySubs s).msetDuring = s.msetDu
 theorem notifySubs_noReader (s : State) : (notifySubs s).noReader = s.noReader := by ns_frame
 
 /-- `notify_subs` on a state that is not (or no longer) fetching, or after a manual write -/
-theorem SInv.notifySubs {s : State} (h : SInv s) (hm : s.pc = .fetching → s.msetDuring = true) :
-    SInv (notifySubs s) := by
-  obtain ⟨p1, p2, p3, p4, p5, p6⟩ := h
+theorem SInv.notifySubs {s : State} (h : SInv f s) (hm : s.pc = .fetching → s.msetDuring = true) :
+    SInv f (notifySubs s) := by
+  obtain ⟨p1, p2, p3, p4, p5, p6, p7⟩ := h
   constructor <;>
     simp only [notifySubs_pending, notifySubs_idsHeld, notifySubs_susp, notifySubs_readSince,
       notifySubs_coveredCur, notifySubs_msetDuring, notifySubs_noReader, notifySubs_pc, notifySubs_aws, notifySubs_loading,
       nLive_wake] <;> simp_all
-  exact fun hn => sawsGone_wake (p4 hn).2.2
+  exact fun hn => sawsGone_wake (p7 hn)
 
-theorem SInv.manualSet {s : State} (h : SInv s) (v : Val) : SInv (manualSet s v) := by
-  obtain ⟨p1, p2, p3, p4, p5, p6⟩ := h
+theorem SInv.manualSet {s : State} (h : SInv f s) (v : Val) : SInv f (manualSet s v) := by
+  obtain ⟨p1, p2, p3, p4, p5, p6, p7⟩ := h
   unfold Async.manualSet
   apply SInv.notifySubs
   · constructor <;> simp_all
   · intro _; rfl
 
-theorem SInv.applyResult {s : State} (h : SInv s) :
-    SInv (Async.applyResult s) ∧ (Async.applyResult s).pc = .waiting := by
-  obtain ⟨p1, p2, p3, p4, p5, p6⟩ := h
+theorem SInv.applyResult {s : State} (h : SInv f s) :
+    SInv f (Async.applyResult s) ∧ (Async.applyResult s).pc = .waiting := by
+  obtain ⟨p1, p2, p3, p4, p5, p6, p7⟩ := h
   simp only [Async.applyResult]
   split
   · refine ⟨?_, by simp⟩
@@ -204,26 +208,26 @@ theorem SInv.applyResult {s : State} (h : SInv s) :
   · refine ⟨?_, rfl⟩
     constructor <;> simp_all
 
-theorem SInv.attach {s : State} (h : SInv s) : SInv { s with aws := s.aws ++ [{}] } := by
-  obtain ⟨p1, p2, p3, p4, p5, p6⟩ := h
+theorem SInv.attach {s : State} (h : SInv f s) : SInv f { s with aws := s.aws ++ [{}] } := by
+  obtain ⟨p1, p2, p3, p4, p5, p6, p7⟩ := h
   have h0 : nLive [({} : Aw)] = 0 := by simp [nLive, liveReaders]
   have h1 : sawsGone [({} : Aw)] := by simp [sawsGone]
   constructor <;> simp_all [nLive_append]
-  exact fun hn => sawsGone_append (p4 hn).2.2 h1
+  exact fun hn => sawsGone_append (p7 hn) h1
 
-theorem SInv.bread {s : State} (h : SInv s) : SInv (bread s) := by
-  obtain ⟨p1, p2, p3, p4, p5, p6⟩ := h
+theorem SInv.bread {s : State} (h : SInv f s) : SInv f (bread s) := by
+  obtain ⟨p1, p2, p3, p4, p5, p6, p7⟩ := h
   have h1 : nLive [({ kind := .reader } : Aw)] = 1 := by simp [nLive, liveReaders]
   unfold Async.bread
   split
   · split
     · constructor <;> simp_all [nLive_append] <;> omega
-    · exact ⟨p1, p2, p3, fun hn => by simp at hn, p5, p6⟩
+    · exact ⟨p1, p2, p3, fun _ hn => by simp at hn, p5, p6, fun hn => by simp at hn⟩
   · constructor <;> simp_all [nLive_append] <;> omega
 
-theorem SInv.attachS {s : State} (h : SInv s) :
-    SInv { s with aws := s.aws ++ [{ kind := .saw }], noReader := false } := by
-  obtain ⟨p1, p2, p3, p4, p5, p6⟩ := h
+theorem SInv.attachS {s : State} (h : SInv f s) :
+    SInv f { s with aws := s.aws ++ [{ kind := .saw }], noReader := false } := by
+  obtain ⟨p1, p2, p3, p4, p5, p6, p7⟩ := h
   have h0 : nLive [({ kind := .saw } : Aw)] = 0 := by simp [nLive, liveReaders]
   constructor <;> simp_all [nLive_append]
 
@@ -237,33 +241,49 @@ theorem nLive_drop (l : List Aw) : nLive (l.map dropAw) = nLive l := by
     rw [ha]
     split <;> simp [ih]
 
-/-- the readers are disposed: every task id the loop holds on their behalf is back, nothing stays registered -/
-theorem SInv.bdrop {s : State} (h : SInv s) : SInv (bdrop s) := by
-  obtain ⟨p1, p2, p3, p4, p5, p6⟩ := h
+/-- the readers are disposed (the code as it is): the awaiting futures go, nothing else -/
+theorem SInv.bdrop {s : State} (h : SInv false s) : SInv false (bdrop s) := by
+  obtain ⟨p1, p2, p3, p4, p5, p6, p7⟩ := h
   unfold Async.bdrop
   constructor <;> simp_all [nLive_drop, sawsGone_drop]
 
-theorem SInv.pollA {s : State} (h : SInv s) (i : Nat) : SInv (pollA s i) := by
-  obtain ⟨p1, p2, p3, p4, p5, p6⟩ := h
+/-- ... once more, when nothing is registered or held any more: nothing changes -/
+theorem SInv.bdrop_quiet {s : State} (h : SInv true s) (hn : s.noReader = true) :
+    SInv true (Async.bdrop s) := by
+  obtain ⟨p1, p2, p3, p4, p5, p6, p7⟩ := h
+  have := p4 rfl hn
+  unfold Async.bdrop
+  constructor <;> simp_all [nLive_drop, sawsGone_drop]
+
+/-- the readers are disposed (proposed repair 3): every task id the loop holds on their behalf is back, nothing
+stays registered -/
+theorem SInv.bdropFixed {s : State} (h : SInv f s) : SInv true (bdropFixed s) := by
+  obtain ⟨p1, p2, p3, p4, p5, p6, p7⟩ := h
+  unfold Async.bdropFixed
+  constructor <;> simp_all [nLive_drop, sawsGone_drop]
+
+theorem SInv.pollA {s : State} (h : SInv f s) (i : Nat) : SInv f (pollA s i) := by
+  obtain ⟨p1, p2, p3, p4, p5, p6, p7⟩ := h
   have hp := nLive_poll s.loading s.value s.aws i
   unfold Async.pollA
   constructor <;> simp only []
   · omega
   · exact p2
   · exact p3
-  · intro hn
-    obtain ⟨a2, a3, a5⟩ := p4 hn
-    exact ⟨by rw [sawPolls_gone a5]; omega, a3, sawsGone_poll a5 _ _ _⟩
+  · intro hf hn
+    obtain ⟨a2, a3⟩ := p4 hf hn
+    exact ⟨by rw [sawPolls_gone (p7 hn)]; omega, a3⟩
   · exact p5
   · intro a b c
     have hl := p5 a b
     rw [hl, nLive_poll_loading]
     exact p6 a b c
+  · exact fun hn => sawsGone_poll (p7 hn) _ _ _
 
 /-! ## the derived's task -/
 
-theorem SInv.toFetch {s : State} (h : SInv s) (hpc : s.pc = .waiting) : SInv (fetchState s) := by
-  obtain ⟨p1, p2, p3, p4, p5, p6⟩ := h
+theorem SInv.toFetch {s : State} (h : SInv f s) (hpc : s.pc = .waiting) : SInv f (fetchState s) := by
+  obtain ⟨p1, p2, p3, p4, p5, p6, p7⟩ := h
   have hi : s.idsHeld = 0 := p2 (by simp [hpc])
   have hn : nLive (if s.isLocal = true then s.aws ++ [({ kind := .tick, tag := s.nf + 1 } : Aw)] else s.aws)
       = nLive s.aws := by
@@ -274,13 +294,13 @@ theorem SInv.toFetch {s : State} (h : SInv s) (hpc : s.pc = .waiting) : SInv (fe
       sawsGone (if s.isLocal = true then s.aws ++ [({ kind := .tick, tag := s.nf + 1 } : Aw)] else s.aws) := by
     intro hnr
     split
-    · exact sawsGone_append (p4 hnr).2.2 (by simp [sawsGone])
-    · exact (p4 hnr).2.2
+    · exact sawsGone_append (p7 hnr) (by simp [sawsGone])
+    · exact p7 hnr
   rcases fetchState_cases s with ⟨_, _, _, _, heq⟩ | heq <;> rw [heq] <;> constructor <;>
     (try (intro hnr; have := p4 hnr; have := hg hnr)) <;> simp_all <;> omega
 
-theorem SInv.dIter {s : State} (h : SInv s) (hpc : s.pc = .waiting) :
-    SInv (dIter s).1 ∧ ((dIter s).2 = true → (dIter s).1.pc = .waiting) := by
+theorem SInv.dIter {s : State} (h : SInv f s) (hpc : s.pc = .waiting) :
+    SInv f (dIter s).1 ∧ ((dIter s).2 = true → (dIter s).1.pc = .waiting) := by
   rw [dIter_def]
   by_cases hc : s.chan = false
   · rw [if_pos hc]
@@ -301,13 +321,13 @@ theorem SInv.dIter {s : State} (h : SInv s) (hpc : s.pc = .waiting) :
         · exact absurd (.inl h2) hn
       obtain ⟨_, _, heq⟩ := chk_false s hc2
       refine ⟨?_, fun _ => ?_⟩
-      · show SInv (chk s).1
+      · show SInv f (chk s).1
         rw [heq]
         exact h.of_same ⟨rfl, rfl, rfl, rfl, rfl, rfl, rfl, rfl, rfl, rfl⟩
       · show (chk s).1.pc = .waiting
         rw [heq]; exact hpc
 
-theorem SInv.dLoop (n : Nat) {s : State} (h : SInv s) (hpc : s.pc = .waiting) : SInv (dLoop n s) := by
+theorem SInv.dLoop (n : Nat) {s : State} (h : SInv f s) (hpc : s.pc = .waiting) : SInv f (dLoop n s) := by
   induction n generalizing s with
   | zero => exact h.of_same ⟨rfl, rfl, rfl, rfl, rfl, rfl, rfl, rfl, rfl, rfl⟩
   | succ n ih =>
@@ -318,13 +338,13 @@ theorem SInv.dLoop (n : Nat) {s : State} (h : SInv s) (hpc : s.pc = .waiting) : 
       exact ih h1 (h2 hc)
     · exact h1
 
-theorem SInv.pollD {s : State} (h : SInv s) : SInv (pollD s) := by
+theorem SInv.pollD {s : State} (h : SInv f s) : SInv f (pollD s) := by
   unfold Async.pollD
   dsimp only
   split
   · rename_i hpc
     apply SInv.dLoop
-    · obtain ⟨p1, p2, p3, p4, p5, p6⟩ := h
+    · obtain ⟨p1, p2, p3, p4, p5, p6, p7⟩ := h
       split <;> constructor <;> simp_all
     · rfl
   · rename_i hpc
@@ -332,7 +352,7 @@ theorem SInv.pollD {s : State} (h : SInv s) : SInv (pollD s) := by
     · exact h.of_same ⟨rfl, rfl, rfl, rfl, rfl, rfl, rfl, rfl, rfl, rfl⟩
     · exact hpc
   · split
-    · have h0 : SInv { s with dWoken := false } := h.of_same ⟨rfl, rfl, rfl, rfl, rfl, rfl, rfl, rfl, rfl, rfl⟩
+    · have h0 : SInv f { s with dWoken := false } := h.of_same ⟨rfl, rfl, rfl, rfl, rfl, rfl, rfl, rfl, rfl, rfl⟩
       exact SInv.dLoop 3 h0.applyResult.1 h0.applyResult.2
     · exact h.of_same ⟨rfl, rfl, rfl, rfl, rfl, rfl, rfl, rfl, rfl, rfl⟩
 
@@ -370,19 +390,20 @@ theorem eLoop_susp (n : Nat) (s : State) : SameSusp s (eLoop n s) := by
 
 /-! ## every event -/
 
-theorem SInv.step {s : State} (h : SInv s) (e : Event) : SInv (step s e) := by
+/-- every event but `bdrop`, whose effect depends on whether the proposed repair 3 is applied -/
+theorem SInv.stepNB {s : State} (h : SInv f s) (e : Event) (hb : e ≠ .bdrop) : SInv f (step s e) := by
   cases e with
   | set i v => exact h.of_same (setSrc_susp s i v)
   | refetch => exact h.of_same (refetch_susp s)
   | manualSet v => exact h.manualSet v
-  | complete f => exact h.of_same (complete_susp s f)
+  | complete k => exact h.of_same (complete_susp s k)
   | attach => exact h.attach
   | poll j =>
     simp only [Async.step, pollNth]
     split
     · rename_i t _
       cases t
-      · show SInv (pollT0 s)
+      · show SInv f (pollT0 s)
         unfold pollT0
         split <;> exact h.of_same ⟨rfl, rfl, rfl, rfl, rfl, rfl, rfl, rfl, rfl, rfl⟩
       · exact h.pollD
@@ -393,14 +414,52 @@ theorem SInv.step {s : State} (h : SInv s) (e : Event) : SInv (step s e) := by
   | get => exact h
   | bread => exact h.bread
   | attachS => exact h.attachS
-  | bdrop => exact h.bdrop
+  | bdrop => exact absurd rfl hb
 
-theorem SInv.foldl {s : State} (h : SInv s) (es : List Event) : SInv (es.foldl Async.step s) := by
+/-- the code as it is -/
+theorem SInv.step {s : State} (h : SInv false s) (e : Event) : SInv false (step s e) := by
+  by_cases hb : e = .bdrop
+  · subst hb; exact h.bdrop
+  · exact h.stepNB e hb
+
+/-- the code as it is, or with the proposed repair 3 -/
+theorem SInv.stepF {s : State} (h : SInv f s) (e : Event) : SInv f (stepF f s e) := by
+  by_cases hb : e = .bdrop
+  · subst hb
+    cases f
+    · exact h.bdrop
+    · exact h.bdropFixed
+  · have : Async.stepF f s e = Async.step s e := by cases e <;> first | rfl | exact absurd rfl hb
+    rw [this]
+    exact h.stepNB e hb
+
+/-- the code as it is, from a state without readers in which nothing is registered or held any more: then the
+boundary behaves as with the repair (`SInv true`), as long as no new reader comes -/
+theorem SInv.step_quiet {s : State} (h : SInv true s) (hn : s.noReader = true) (e : Event) :
+    SInv true (Async.step s e) := by
+  by_cases hb : e = .bdrop
+  · subst hb; exact h.bdrop_quiet hn
+  · exact h.stepNB e hb
+
+/-- nothing registered, nothing held: the flag does not matter -/
+theorem SInv.quiet {s : State} (h : SInv f s) (hn : s.noReader = true → s.susp = 0 ∧ s.idsHeld = 0) :
+    SInv true s :=
+  ⟨h.p1, h.p2, h.p3, fun _ => hn, h.p5, h.p6, h.p7⟩
+
+theorem SInv.foldl {s : State} (h : SInv false s) (es : List Event) : SInv false (es.foldl Async.step s) := by
   induction es generalizing s with
   | nil => exact h
   | cons e es ih => exact ih (h.step e)
 
+theorem SInv.foldlF {s : State} (h : SInv f s) (es : List Event) : SInv f (es.foldl (Async.stepF f) s) := by
+  induction es generalizing s with
+  | nil => exact h
+  | cons e es ih => exact ih (h.stepF e)
+
 /-- the boundary invariant holds after every history -/
-theorem SInv.run (c : Cfg) (es : List Event) : SInv (run c es) := (SInv.init c).foldl es
+theorem SInv.run (c : Cfg) (es : List Event) : SInv false (run c es) := (SInv.init c).foldl es
+
+/-- ... and with the proposed repair 3, where it says more (`p4`) -/
+theorem SInv.runF (c : Cfg) (es : List Event) : SInv f (runF f c es) := (SInv.init c).foldlF es
 
 end Leptos.Async
